@@ -30,6 +30,9 @@ DECIDED = [
     "lemma_mreaches_end (whole histories of step() calls on Adams / BDF, by induction): a solve that starts before the end, never fails and is answered Done has yielded at least one point, "
     "the LAST yielded point is exactly the end time, and every yielded point lies within dt_max after the previous one",
 ]
+DECIDED.append(
+    "'every solver built with valid parameters': RungeKutta::solve / Adams::solve / BDF::solve (in the same units) return a solver that satisfies the invariant the step() contracts require "
+    "(0 < dt = (dt_min + dt_max)/2 <= dt_max, time < end, empty history, constants, tables of the right shape), so the clauses above hold from the first call on")
 NOT_DECIDED = [
     "Adams only: a multistep trial whose error estimate is exactly zero (division by it in the step-size update; the invariant is not re-established there and lemma_mclock does not apply to that call)",
     "termination (a solver may answer Redo forever) and finiteness of the states (exact reals have no NaN/inf)",
